@@ -5,9 +5,10 @@ from . import redirects as R
 RULE = ("flows at redirect depth 0..4 (same chain generator as C13/C14) where at each depth the caller adds 0..3 headers with names from "
         "{cookie, authorization, x-new, connection, accept, host (when the original has none)}; plus dedicated scripts adding 0..60 "
         "headers incl. content-length on flows that send a body, values with non-UTF-8 bytes and white space, headers identical to one of the "
-        "original request (also re-attached after a redirect), additions made before and after send_body_despite_method. The head "
+        "original request (also re-attached after a redirect), additions made before and after send_body_despite_method, the head written at once or in segments (buffers ending around line ends). The head "
         "written afterwards is parsed: the field lines right after the request line must be exactly the added headers, byte for byte, "
-        "in the order added (hence ahead of the analysis-added and inherited ones). non-trivial = at least one header added at depth >= 1 or >= 5 "
+        "in the order added (hence ahead of the analysis-added and inherited ones); Flow::headers / version and Flow<SendRequest>::headers_map "
+        "are queried on the way and must agree with the original request and with the head that follows. non-trivial = at least one header added at depth >= 1 or >= 5 "
         "headers added; distinct = distinct op lists")
 TRUSTED_BASE = COMMON_TRUSTED_BASE
 ASSUMPTIONS = ["restricted to resulting requests that request analysis accepts (C17)"]
@@ -36,10 +37,38 @@ def gen_many(rng):
         ops.append("header %s %s" % (hx(k), hx(v)))
     if despite_at == len(added):
         ops.append("despite")
-    ops += ["q_uri", "q_method", "proceed", "write_head #100000"]
-    meta = {"orig_headers": [[k.hex(), v.hex()] for k, v in orig], "explicit_host": False,
-            "hops": [{"hop": 0, "added": [[k.hex(), v.hex()] for k, v in added], "head_idx": len(ops) - 1}]}
+    ops += ["q_uri", "q_method", "q_version", "q_headers", "proceed"]
+    qh_idx = len(ops) - 2
+    hm_idx = None
+    if rng.random() < 0.6:
+        hm_idx = len(ops)
+        ops.append("headers_map")       # Flow<SendRequest>::headers_map: the effective headers as a map, before anything is written
+    seg_from = len(ops)
+    if rng.random() < 0.5:
+        # the head written in segments: buffers that end shortly before / exactly at / shortly after a line end
+        for _ in range(rng.randrange(1, 8)):
+            ops.append("write_head %s" % num(rng.choice([0, 1, 2, 5, 11, 12, 13, 14, 15, 16, 17, 18, 19, 20, 21, 22, 23, 24, 25, 26, 27, 28, 29, 30, 31, 32, 40, 64])))
+    ops.append("write_head #100000")
+    meta = {"orig_headers": [[k.hex(), v.hex()] for k, v in orig], "explicit_host": False, "hm_idx": hm_idx, "qh_idx": qh_idx,
+            "hops": [{"hop": 0, "added": [[k.hex(), v.hex()] for k, v in added], "head_idx": len(ops) - 1, "seg_from": seg_from}]}
     return {"ops": ops, "meta": meta}
+
+
+def parse_header_list_obs(o):
+    p = o.split(" ")
+    n = unnum(p[0])
+    return [(unhex(p[1 + 2 * i]), unhex(p[2 + 2 * i])) for i in range(n)]
+
+
+def collapse_map(hs):
+    """http::HeaderMap::insert for each header in turn: position of the first occurrence of a name, value of the last."""
+    order = []
+    last = {}
+    for k, v in hs:
+        if k not in last:
+            order.append(k)
+        last[k] = v
+    return [(k, last[k]) for k in order]
 
 
 def generate(rng, tier, mult):
@@ -69,7 +98,22 @@ def oracle(script, obs):
         ho = obs[h["head_idx"]]
         if not ho.startswith("ok "):
             continue  # refused by analysis (e.g. two host fields): C17's subject
-        rl, hs = R.parse_head(parse_head_write(ho)[1])
+        head_bytes = parse_head_write(ho)[1]
+        if h.get("seg_from") is not None:
+            # concatenation of everything the earlier, smaller writes emitted (a write that overflows emits nothing)
+            parts = [parse_head_write(obs[j])[1] for j in range(h["seg_from"], h["head_idx"]) if obs[j].startswith("ok ")]
+            head_bytes = b"".join(parts) + head_bytes
+        rl, hs = R.parse_head(head_bytes)
+        if h["hop"] == 0 and meta.get("hm_idx") is not None:
+            mo = obs[meta["hm_idx"]]
+            if not mo.startswith("#"):
+                return ["headers_map failed (%s) although the head was written" % mo[:40]]
+            if parse_header_list_obs(mo) != collapse_map(hs):
+                return ["headers_map reports %r, the head that follows carries %r" % (parse_header_list_obs(mo)[:4], collapse_map(hs)[:4])]
+        if h["hop"] == 0 and meta.get("qh_idx") is not None and obs[meta["qh_idx"]].startswith("#"):
+            want_orig = [(bytes.fromhex(k), bytes.fromhex(v)) for k, v in meta["orig_headers"]]
+            if parse_header_list_obs(obs[meta["qh_idx"]]) != want_orig:
+                return ["Flow<Prepare>::headers does not return the original request's headers"]
         if added:
             d = str(h["hop"])
             _stats["added_at_depth"][d] = _stats["added_at_depth"].get(d, 0) + 1
